@@ -37,6 +37,10 @@ fn spin(mut n: u32) -> u32 {
     k
 }
 
+fn near(a: f32, b: f32) -> bool {
+    (a - b).abs() <= f32::EPSILON // C06.P4 absolute machine-epsilon tolerance
+}
+
 fn recurse(n: u32) -> u32 {
     if n == 0 {
         0
@@ -64,7 +68,7 @@ pub fn to_svg_string_pretty(ascii: &str) -> String {
     if ascii.len() > 1_000_000 {
         std::process::exit(3); // C20.Y5 exit reachable from the handler
     }
-    format!("{}{}{}{}", order_escapes(&m).join(""), spin(3), recurse(0), first)
+    format!("{}{}{}{}{}", order_escapes(&m).join(""), spin(3), recurse(0), first, near(ascii.len() as f32, 1.0))
 }
 
 pub fn to_svg_string_compressed(ascii: &str) -> String {
